@@ -164,6 +164,17 @@ ParseRd(rd) ==
   ELSE MazeVal(rd.kind, InferR(rd.edges), InferC(rd.edges), rd.edges, rd.start, rd.end, rd.sol)
 Parse(ck, toks) == ParseRd(Read(ck, toks))
 
+\* The implementation's grid inference (LatticeMaze.from_adj_list: "only tested for square mazes"): ONE side,
+\* largest index of either axis + 1.  PadSq(m) is m on the square grid of side max(R, C) (no new connection);
+\* for a square maze PadSq(m) = m, for an oblong one the re-parse of the real code is PadSq(m), which is why the
+\* round trip of the statement is judged on square mazes only (TokLegacy_sqinfer.cfg: SquareRoundTrip must FAIL).
+PadSq(m) ==
+  LET n == MaxI(m.R, m.C) IN
+  [m EXCEPT !.R = n, !.C = n,
+            !.conn = [d \in 1..2 |-> [i \in 1..n |-> [j \in 1..n |-> IF i <= m.R /\ j <= m.C THEN m.conn[d][i][j] ELSE 0]]]]
+ParseSqRd(rd) == IF ~rd.ok THEN IllFormed ELSE PadSq(ParseRd(rd))
+ParseSq(ck, toks) == ParseSqRd(Read(ck, toks))
+
 \* toks \in Emit(ck, m), decided without enumerating Emit (usable on 20x20 mazes);  rd = Read(ck, toks), E = EdgesOf(m)
 InEmitRd(rd, m, E) ==
   /\ rd.ok /\ rd.kind = m.kind
